@@ -348,7 +348,7 @@ def PSel (s : Selection) (u : List Token) : Prop :=
 
 /-- a (non-empty) selection set -/
 def PSelSet (ss : Selections) (u : List Token) : Prop :=
-  ss ≠ .nil ∧ WFSelections ss ∧ Derives gql (.nt .selectionSet) (tk u) (printSelectionSet ss)
+  ss ≠ .nil ∧ WFSelections ss ∧ Derives gql (.nt .selectionSet) (tk u) (printSelectionSet ss) ∧ u ≠ []
 
 theorem many_sel {xs : List Selection} {mid : List Token} (h : Many PSel xs mid) :
     Derives gql (.star (.nt .selection)) (tk mid) (printSelections (Selections.ofList xs)) ∧
@@ -372,7 +372,8 @@ theorem selSet_of_bracket {xs : List Selection} {a a' : AS} (hb : Bracketed PSel
     | nil => exact absurd rfl hxs
     | @cons x xs u us hx hrest =>
       obtain ⟨m1, m2⟩ := many_sel hrest
-      refine ⟨_, hu, by simp [Selections.ofList], by simp only [Selections.ofList, WFSelections]; exact ⟨hx.2, m2⟩, ?_⟩
+      refine ⟨_, hu, by simp [Selections.ofList], by simp only [Selections.ofList, WFSelections]; exact ⟨hx.2, m2⟩, ?_,
+        by simp⟩
       have hp := Derives.plus hx.1 m1
       have := Derives.nt (g := gql) (n := NT.selectionSet)
         (Derives.seq (L.kind .braceL) (Derives.seq hp (L.kind .braceR)))
@@ -485,7 +486,7 @@ theorem spec_fieldTail {sel : Prog Selection} (hsel : Spec sel (Eats PSel)) (n :
       (fun _ => Spec.bind (Spec.pure Selections.nil) fun ss => Spec.pure _)).mono ?_
   rintro s a a'' _ ⟨args, a1, ⟨u1, h1, p1⟩, dirs, a2, ⟨u2, h2, p2⟩, t, a3, ⟨rfl, rfl⟩,
     ⟨hk, ss, a4, hss, rfl, rfl⟩ | ⟨hk, ss, a4, ⟨rfl, rfl⟩, rfl, rfl⟩⟩
-  · obtain ⟨u3, h3, q1, q2, q3⟩ := hss hk
+  · obtain ⟨u3, h3, q1, q2, q3, _⟩ := hss hk
     refine ⟨_, h1.trans (h2.trans ((Ate.peeked a2).trans h3)), args, dirs, ss, tk u3, rfl, by simp [p1.1, p2.1], ?_, q2⟩
     rw [selOut_of_ne q1]
     exact Derives.optSome q3
@@ -597,10 +598,10 @@ theorem spec_parseFragmentWith {sel : Prog Selection} (hsel : Spec sel (Eats PSe
     have htc : t'.value ≠ [] := ok.2.2 k1
     refine ⟨_, h1.trans ((Ate.peeked a1).trans (e2.trans (h2.trans h3))), ?_, by
       simp only [WFSelection]; exact ⟨q2.1, q2.2.1⟩⟩
-    refine (derives_inline t'.value ds ss pos q2.2.2).cast ?_ rfl
+    refine (derives_inline t'.value ds ss pos q2.2.2.1).cast ?_ rfl
     simp [p1, htn, q1, htc, ofToken_name k1]
   · refine ⟨_, h1.trans ((Ate.peeked a1).trans h3), ?_, by simp only [WFSelection]; exact ⟨q2.1, q2.2.1⟩⟩
-    refine (derives_inline [] ds ss pos q2.2.2).cast ?_ rfl
+    refine (derives_inline [] ds ss pos q2.2.2.1).cast ?_ rfl
     simp [p1, q1]
 
 /-- `Selection` -/
@@ -618,5 +619,173 @@ theorem spec_parseSelection : ∀ n, Spec (parseSelection n) (Eats PSel)
 /-- `SelectionSet` -/
 theorem spec_parseRequiredSelectionSet (n : Nat) : Spec (parseRequiredSelectionSet n) (Eats PSelSet) :=
   spec_parseRequiredSelectionSetWith (spec_parseSelection n) n
+
+/-! ### definitions -/
+
+theorem dropBareQuery_nonbare (o : OperationDef) (hbare : ¬ OperationDef.isBare o = true) :
+    dropBareQuery (tName o.op :: ((if o.name = [] then [] else [tName o.name]) ++
+        (printVarDefs o.vars ++ (printDirectives o.dirs ++ printSelectionSet o.sel))))
+      = tName o.op :: ((if o.name = [] then [] else [tName o.name]) ++
+        (printVarDefs o.vars ++ (printDirectives o.dirs ++ printSelectionSet o.sel))) := by
+  by_cases hq : o.op = str "query"
+  · refine dropBareQuery_second _ _ ?_
+    by_cases h1 : o.name = []
+    · by_cases h2 : o.vars = []
+      · by_cases h3 : o.dirs = []
+        · exact absurd (by simp [OperationDef.isBare, hq, h1, h2, h3]) hbare
+        · simp only [h1, if_true, List.nil_append, h2, printVarDefs, List.isEmpty_nil]
+          cases hd : o.dirs with
+          | nil => exact absurd hd h3
+          | cons d r =>
+            intro t h
+            simp [printDirectives, printDirective] at h
+            subst h; simp [tP]
+      · simp only [h1, if_true, List.nil_append]
+        cases hv : o.vars with
+        | nil => exact absurd hv h2
+        | cons v r =>
+          intro t h
+          simp [printVarDefs] at h
+          subst h; simp [tP]
+    · simp only [h1, if_false]
+      intro t h
+      simp at h
+      subst h; simp [tName]
+  · exact dropBareQuery_first _ _ (by simpa [tName] using hq)
+
+theorem derives_operation (o : OperationDef)
+    (hop : o.op = str "query" ∨ o.op = str "mutation" ∨ o.op = str "subscription")
+    (hvars : ∀ v ∈ o.vars, WFVarDef v) {tsSS : List Tok}
+    (hss : Derives gql (.nt .selectionSet) tsSS (printSelectionSet o.sel)) :
+    Derives gql (.nt .operationDefinition)
+      (tName o.op :: ((if o.name = [] then [] else [tName o.name]) ++ (printVarDefs o.vars ++ (printDirectives o.dirs ++ tsSS))))
+      (printOperation o) := by
+  have hn : L (.opt (.nt .name)) (if o.name = [] then [] else [tName o.name]) := by
+    split
+    · exact L.optNone
+    · exact L.optSome (L.name o.name)
+  have hbody := Derives.altL (b := .nt .selectionSet) (Derives.seq (L_operationType o.op hop) (Derives.seq hn
+    (Derives.seq (L_optVarDefs o.vars hvars) (Derives.seq (L_optDirectives false o.dirs (by simp)) hss))))
+  refine (Derives.nt (n := NT.operationDefinition) (Derives.canon (f := dropBareQuery) hbody)).cast (by simp) ?_
+  by_cases hb : OperationDef.isBare o = true
+  · have hp : printOperation o = printSelectionSet o.sel := by simp [printOperation, hb]
+    rw [hp]
+    simp only [OperationDef.isBare, Bool.and_eq_true, beq_iff_eq, List.isEmpty_iff] at hb
+    obtain ⟨⟨⟨h1, h2⟩, h3⟩, h4⟩ := hb
+    simp [h1, h2, h3, h4, printVarDefs, printDirectives, printSelectionSet, dropBareQuery, tName, tP]
+  · have hp : printOperation o = tName o.op :: ((if o.name = [] then [] else [tName o.name]) ++
+        (printVarDefs o.vars ++ (printDirectives o.dirs ++ printSelectionSet o.sel))) := by
+      simp [printOperation, hb]
+    rw [hp]
+    simpa using dropBareQuery_nonbare o hb
+
+theorem derives_shorthand (ss : Selections) (pos : Pos) {tsSS : List Tok}
+    (hss : Derives gql (.nt .selectionSet) tsSS (printSelectionSet ss)) :
+    Derives gql (.nt .operationDefinition) tsSS
+      (printOperation { op := kwQuery, name := [], vars := [], dirs := [], sel := ss, pos := pos }) := by
+  have hbody := Derives.altR (g := gql)
+    (a := (.nt .operationType : Sym NT).seq ((Sym.opt (.nt .name)).seq ((Sym.opt (.nt .variableDefinitions)).seq
+      ((Sym.opt (.nt (.directives false))).seq (.nt .selectionSet))))) hss
+  refine (Derives.nt (n := NT.operationDefinition) (Derives.canon (f := dropBareQuery) hbody)).cast rfl ?_
+  simp [printOperation, OperationDef.isBare, kwQuery, printSelectionSet, dropBareQuery_brace]
+
+/-- `parseOperationType`: the filled look-ahead, a Name `query` / `mutation` / `subscription`, is consumed -/
+theorem spec_parseOperationType : Spec parseOperationType (fun op a a' => a.pk = true → a.σ.head.kind = .name →
+    ∃ t, Ate a a' [t] ∧ Tok.ofToken t = tName op ∧ (op = str "query" ∨ op = str "mutation" ∨ op = str "subscription")) := by
+  unfold parseOperationType
+  refine (Spec.bind spec_next fun tok => Spec.ite (fun _ => Spec.pure kwQuery) fun _ =>
+    Spec.ite (fun _ => Spec.pure kwMutation) fun _ => Spec.ite (fun _ => Spec.pure kwSubscription) fun _ =>
+      Spec.of_dead_bind (R := fun _ _ _ => False) (failAt_dead _ _)).mono ?_
+  rintro op a a'' hne ⟨tok, a1, hn, h⟩ hpk hk
+  obtain ⟨e1, e2, e3⟩ := next_eats hne hpk hk (by decide) (by decide) hn
+  rcases h with ⟨hc, rfl, rfl⟩ | ⟨_, ⟨hc, rfl, rfl⟩ | ⟨_, ⟨hc, rfl, rfl⟩ | ⟨_, hf⟩⟩⟩
+  · exact ⟨tok, e2, by simp [Tok.ofToken, tName, hc.1, hc.2], .inl rfl⟩
+  · exact ⟨tok, e2, by simp [Tok.ofToken, tName, hc.1, hc.2], .inr (.inl rfl)⟩
+  · exact ⟨tok, e2, by simp [Tok.ofToken, tName, hc.1, hc.2], .inr (.inr rfl)⟩
+  · exact hf.elim
+
+/-- an operation definition: position of its first token, derivation, well-formedness -/
+def POp (o : OperationDef) (u : List Token) : Prop :=
+  (∃ t rest, u = t :: rest ∧ o.pos.start = t.start) ∧
+    Derives gql (.nt .operationDefinition) (tk u) (printOperation o) ∧ WFOperation o
+
+/-- the part of an operation definition after the name -/
+def opTail (n : Nat) (pos : Pos) (op : Operation) (name : Name) : Prog OperationDef := do
+  let vars ← parseVariableDefinitions n
+  let dirs ← parseDirectives n false
+  let ss ← parseRequiredSelectionSet n
+  pure { op := op, name := name, vars := vars, dirs := dirs, sel := ss, pos := pos }
+
+theorem parseOperationDefinition_eq (n : Nat) :
+    parseOperationDefinition n = (do
+      let t ← peek
+      if t.kind = .braceL then do
+        let pos ← peekPos
+        let ss ← parseRequiredSelectionSet n
+        pure { op := kwQuery, name := [], vars := [], dirs := [], sel := ss, pos := pos }
+      else do
+        let pos ← peekPos
+        let op ← parseOperationType
+        let t ← peek
+        if t.kind = .name then do
+          let tk ← next
+          opTail n pos op tk.value
+        else opTail n pos op []) := rfl
+
+theorem spec_opTail (n : Nat) (pos : Pos) (op : Operation) (name : Name) :
+    Spec (opTail n pos op name) (Eats fun o u => ∃ vars dirs ss uss,
+      o = { op := op, name := name, vars := vars, dirs := dirs, sel := ss, pos := pos } ∧
+      tk u = printVarDefs vars ++ (printDirectives dirs ++ tk uss) ∧ (∀ v ∈ vars, WFVarDef v) ∧ PSelSet ss uss) := by
+  unfold opTail
+  refine (Spec.bind (spec_parseVariableDefinitions n) fun vars => Spec.bind (spec_parseDirectives n false) fun dirs =>
+    Spec.bind (spec_parseRequiredSelectionSet n) fun ss => Spec.pure _).mono ?_
+  rintro o a a'' _ ⟨vars, a1, ⟨u1, h1, p1⟩, dirs, a2, ⟨u2, h2, p2⟩, ss, a3, ⟨u3, h3, p3⟩, rfl, rfl⟩
+  exact ⟨_, h1.trans (h2.trans h3), vars, dirs, ss, u3, rfl, by simp [p1.1, p2.1], p1.2, p3⟩
+
+theorem spec_parseOperationDefinition (n : Nat) :
+    Spec (parseOperationDefinition n) (fun o a a' => a.σ.head.kind = .name ∨ a.σ.head.kind = .braceL → Eats POp o a a') := by
+  rw [parseOperationDefinition_eq]
+  refine (Spec.bind spec_peek fun t => Spec.ite
+    (fun _ => Spec.bind spec_peekPos fun pos => Spec.bind (spec_parseRequiredSelectionSet n) fun ss => Spec.pure _)
+    (fun _ => Spec.bind spec_peekPos fun pos => Spec.bind spec_parseOperationType fun op => Spec.bind spec_peek fun t2 =>
+      Spec.ite (fun _ => Spec.bind spec_next fun tn => spec_opTail n pos op tn.value)
+        (fun _ => spec_opTail n pos op []))).mono ?_
+  rintro o a a'' hne ⟨t, a1, ⟨rfl, rfl⟩,
+    ⟨hk, pos, a2, ⟨rfl, hpos⟩, ss, a3, ⟨u1, h1, p1⟩, rfl, rfl⟩ |
+    ⟨hk, pos, a2, ⟨rfl, hpos⟩, op, a3, hop, t2, a4, ⟨rfl, rfl⟩,
+      ⟨hk2, tn, a5, hn, u3, h3, vars, dirs, ss, uss, rfl, q1, q2, q3⟩ |
+      ⟨hk2, u3, h3, vars, dirs, ss, uss, rfl, q1, q2, q3⟩⟩⟩ hkind
+  · obtain ⟨p11, p12, p13, p14⟩ := p1
+    cases u1 with
+    | nil => exact absurd rfl p14
+    | cons t1 rest =>
+      refine ⟨_, (Ate.peeked a).trans ((Ate.peeked _).trans h1), ⟨t1, rest, rfl, ?_⟩, derives_shorthand ss pos p13,
+        .inl rfl, by simp, p11, p12⟩
+      rw [hpos]; exact congrArg Token.start h1.head
+  · have hkn : a.σ.head.kind = .name := by
+      rcases hkind with h | h
+      · exact h
+      · exact absurd h hk
+    obtain ⟨t1, e1, e2, e3⟩ := hop rfl hkn
+    have hne3 : a3.σ.NoEof := e1.noEof hne
+    obtain ⟨f1, f2, f3⟩ := next_eats (a := { a3 with pk := true }) (k := .name) hne3 rfl hk2 (by decide) (by decide) hn
+    have hnm : tn.value ≠ [] := f3.2.2 (f1 ▸ hk2)
+    refine ⟨_, (Ate.peeked a).trans ((Ate.peeked _).trans (e1.trans ((Ate.peeked a3).trans (f2.trans h3)))),
+      ⟨t1, _, rfl, ?_⟩, ?_, e3, q2, q3.1, q3.2.1⟩
+    · rw [hpos]; exact congrArg Token.start e1.head
+    · refine (derives_operation { op := op, name := tn.value, vars := vars, dirs := dirs, sel := ss, pos := pos } e3 q2
+        q3.2.2.1).cast ?_ rfl
+      simp [e2, hnm, q1, ofToken_name (f1 ▸ hk2)]
+  · have hkn : a.σ.head.kind = .name := by
+      rcases hkind with h | h
+      · exact h
+      · exact absurd h hk
+    obtain ⟨t1, e1, e2, e3⟩ := hop rfl hkn
+    refine ⟨_, (Ate.peeked a).trans ((Ate.peeked _).trans (e1.trans ((Ate.peeked a3).trans h3))),
+      ⟨t1, _, rfl, ?_⟩, ?_, e3, q2, q3.1, q3.2.1⟩
+    · rw [hpos]; exact congrArg Token.start e1.head
+    · refine (derives_operation { op := op, name := [], vars := vars, dirs := dirs, sel := ss, pos := pos } e3 q2
+        q3.2.2.1).cast ?_ rfl
+      simp [e2, q1]
 
 end Gql.Parser
